@@ -84,7 +84,33 @@ func genCase(h *rt.H) []string {
 				ops = append(ops, "plabels-del "+p)
 			}
 		case 17:
-			ops = append(ops, "status "+rt.Pick(h, []string{"resync", "wait", "insync"}))
+			if h.Chance(0.5) {
+				ops = append(ops, "status "+rt.Pick(h, []string{"resync", "wait", "insync"}))
+			} else {
+				// order-less tier life cycle around policies that are already active in it: the tier
+				// exists only as the sorter's invalid placeholder (or was deleted) and then arrives /
+				// is re-created without an order, possibly twice, possibly deleted again
+				t := rt.Pick(h, append(gTiers, "ghost"))
+				if h.Chance(0.6) {
+					ops = append(ops, fmt.Sprintf("pol %s %s %s - - x=%s", rt.Pick(h, gPols), t, rt.Pick(h, gOrders), hexs("all()")))
+				}
+				if h.Chance(0.5) {
+					ops = append(ops, "tier-del "+t)
+				}
+				ops = append(ops, fmt.Sprintf("tier %s ~ %s", t, rt.Pick(h, gActs)))
+				if h.Chance(0.4) {
+					ops = append(ops, "flush")
+				}
+				if h.Chance(0.5) {
+					ops = append(ops, fmt.Sprintf("tier %s ~ %s", t, rt.Pick(h, gActs)))
+				}
+				if h.Chance(0.4) {
+					ops = append(ops, "tier-del "+t)
+					if h.Chance(0.5) {
+						ops = append(ops, fmt.Sprintf("tier %s %s %s", t, rt.Pick(h, []string{"~", "~", "100"}), rt.Pick(h, gActs)))
+					}
+				}
+			}
 		default:
 			ops = append(ops, "flush")
 		}
